@@ -32,6 +32,107 @@ def items_of(ev):
     return [e for e in ev if (e.kind == 'emit' and e.ctor != 'asm.Metadata') or e.kind in ('sub', 'splice')]
 
 
+def rendering(repo, chk, rule='C09.M1'):
+    """Every instruction / directive / accessor class of asm.py, interpreted on one representative operand tuple
+    each (the classes are pure formatters): mnemonic, operand order, `[...]` wrapping of destinations, separators."""
+    it = Interp(repo)
+    it.allow_generators = True
+    asm = it.load(ASM)
+    L, St, IL, WO = asm['LabelRef'], asm['State'], asm['IntLiteral'], asm['WordOffset']
+    r0, fp, ap = L('r0'), L('fp'), L('ap')
+
+    def lines(x):
+        try:
+            return [bytes(b) for b in x.lines()]
+        except Exception as e:      # noqa
+            return f'{type(e).__name__}: {e}'
+    cases = []
+    for cls, code in (('Add', 'add'), ('Sub', 'sub'), ('Mul', 'mul'), ('Div', 'div'), ('Mod', 'mod'), ('And', 'and'), ('Or', 'or'),
+                      ('Xor', 'xor'), ('Asl', 'asl'), ('Asr', 'asr')):
+        cases.append((cls, lambda c=cls: asm[c](r0, St(fp), IL(-2)), [f'{code} [r0], [fp], -2'.encode()]))
+    cases.append(('Mov', lambda: asm['Mov'](r0, IL(5)), [b'mov [r0], 5']))
+    for cls, code in (('Lws', 'lws'), ('Lwc', 'lwc'), ('Lbs', 'lbs'), ('Lbc', 'lbc')):
+        cases.append((cls, lambda c=cls: asm[c](r0, St(fp)), [f'{code} [r0], [fp]'.encode()]))
+    for cls, code in (('Lwso', 'lwso'), ('Lwco', 'lwco'), ('Lbso', 'lbso'), ('Lbco', 'lbco')):
+        cases.append((cls, lambda c=cls: asm[c](r0, St(fp), IL(-4)), [f'{code} [r0], [fp], -4'.encode()]))
+    for cls, code in (('Sws', 'sws'), ('Sbs', 'sbs')):
+        cases.append((cls, lambda c=cls: asm[c](St(ap), St(r0)), [f'{code} [ap], [r0]'.encode()]))
+    for cls, code in (('Swso', 'swso'), ('Sbso', 'sbso')):
+        cases.append((cls, lambda c=cls: asm[c](St(ap), IL(-2), St(r0)), [f'{code} [ap], -2, [r0]'.encode()]))
+    for cls in ('Heq', 'Hne', 'Hlt', 'Hle', 'Hgt', 'Hge', 'Hltu', 'Hleu', 'Hgtu', 'Hgeu'):
+        cases.append((cls, lambda c=cls: asm[c](St(r0), IL(1)), [f'{cls.lower()} [r0], 1'.encode()]))
+    cases += [
+        ('Jump', lambda: asm['Jump'](L('x')), [b'j x']), ('Jump indirect', lambda: asm['Jump'](St(r0)), [b'j [r0]']),
+        ('Halt', lambda: asm['Halt'](), [b'halt']),
+        ('Yield', lambda: asm['Yield'](IL(10, True)), [b"yield '\\n'"]), ('Sleep', lambda: asm['Sleep'](St(r0)), [b'sleep [r0]']),
+        ('Flag', lambda: asm['Flag'](asm['SpecialArg'](b'debug')), [b'flag debug']),
+        ('Label', lambda: asm['Label'](L('loop_3')), [b'loop_3:']),
+        ('WordDirective', lambda: asm['WordDirective'](IL(1), L('x')), [b'.word 1, x']),
+        ('WordDirective empty', lambda: asm['WordDirective'](), []),
+        ('ByteDirective', lambda: asm['ByteDirective'](IL(1), IL(255)), [b'.byte 1, 255']),
+        ('ZeroDirective', lambda: asm['ZeroDirective'](WO(5)), [b'.zero 5w']),
+        ('ZeroDirective bytes', lambda: asm['ZeroDirective'](IL(7)), [b'.zero 7']),
+        ('AsciiDirective', lambda: asm['AsciiDirective'](b'a"b'), [b'.ascii "a\\"b"']),
+        ('ArgDirective', lambda: asm['ArgDirective']('n', 'word'), [b'.arg n word']),
+        ('ArgDirective array', lambda: asm['ArgDirective']('a', 'asciip', ('array',)), [b'.arg a asciip array']),
+        ('Metadata', lambda: asm['Metadata']('x\ny'), [b'; x', b'; y']),
+        ('Metadata silent', lambda: asm['Metadata'](add_indent=1), []),
+    ]
+    for name, mk, want in cases:
+        try:
+            got = lines(mk())
+        except Exception as e:     # noqa
+            got = f'{type(e).__name__}: {e}'
+        chk.expect(got == want, rule, f'asm.{name} rendering', f'renders as {got}, expected {want}', ASM)
+    # operand expressions
+    exprs = [(St(r0), b'[r0]'), (asm['Const'](L('s')), b'{s}'), (WO(-3), b'-3w'), (IL(-7), b'-7'), (IL(65, True), b"'A'"),
+             (IL(300, True), b'300'), (L('lbl'), b'lbl'), (asm['SpecialArg'](b'$argc - 1'), b'$argc - 1')]
+    for e, want in exprs:
+        chk.expect(bytes(e) == want, rule, f'operand {want.decode()}', f'renders as {bytes(e)}', ASM)
+    # accessors: what get / set emit and what get returns
+    S = asm['Section']
+
+    def run(g):
+        return [repr(x) for x in g.items], repr(g.value)
+    acc = [
+        ('State.get', lambda: St(fp).get(r0), ([], repr(St(fp)))),
+        ('State.set', lambda: St(fp).set(IL(1)), ([repr(asm['Mov'](fp, IL(1)))], 'None')),
+        ('State.set self', lambda: St(fp).set(St(fp)), ([], 'None')),
+        ('State.to', lambda: St(fp).to(r0), ([repr(asm['Mov'](r0, St(fp)))], 'None')),
+        ('StateByte.get', lambda: asm['StateByte'](fp).get(r0), ([repr(asm['Lbs'](r0, fp))], repr(St(r0)))),
+        ('StateByte.set', lambda: asm['StateByte'](fp).set(IL(1)), ([repr(asm['Sbs'](fp, IL(1)))], 'None')),
+        ('ConstByte.get', lambda: asm['ConstByte'](fp).get(r0), ([repr(asm['Lbc'](r0, fp))], repr(St(r0)))),
+        ('Indirect.get', lambda: asm['Indirect'](S.STATE, St(fp), IL(-2)).get(r0), ([repr(asm['Lwso'](r0, St(fp), IL(-2)))], repr(St(r0)))),
+        ('Indirect.set', lambda: asm['Indirect'](S.STATE, St(fp), IL(-2)).set(IL(9)), ([repr(asm['Swso'](St(fp), IL(-2), IL(9)))], 'None')),
+        ('Indirect.to', lambda: asm['Indirect'](S.STATE, St(fp), IL(-2)).to(r0), ([repr(asm['Lwso'](r0, St(fp), IL(-2)))], 'None')),
+        ('IndirectByte.get', lambda: asm['IndirectByte'](S.STATE, St(fp), IL(-3)).get(r0), ([repr(asm['Lbso'](r0, St(fp), IL(-3)))], repr(St(r0)))),
+        ('IndirectByte.set', lambda: asm['IndirectByte'](S.STATE, St(fp), IL(-3)).set(IL(9)), ([repr(asm['Sbso'](St(fp), IL(-3), IL(9)))], 'None')),
+        ('Indirect(CONST).get', lambda: asm['Indirect'](S.CONST, L('tbl'), St(r0)).get(r0), ([repr(asm['Lwco'](r0, L('tbl'), St(r0)))], repr(St(r0)))),
+        ('IntLiteral.get', lambda: IL(4).get(r0), ([], repr(IL(4)))),
+        ('IntLiteral.to', lambda: IL(4).to(r0), ([repr(asm['Mov'](r0, IL(4)))], 'None')),
+    ]
+    for name, mk, want in acc:
+        try:
+            got = run(mk())
+        except Exception as e:     # noqa
+            got = f'{type(e).__name__}: {e}'
+        chk.expect(got == want, rule, f'asm.{name}', f'emits/returns {got}, expected {want}', ASM)
+    # const-section stores are refused
+    try:
+        asm['Indirect'](S.CONST, L('tbl'), IL(0)).set(IL(1))
+        refused = False
+    except Exception as e:      # noqa
+        refused = type(e).__name__ == 'InternalCompilerError'
+    chk.expect(refused, rule, 'asm.Indirect(CONST).set', 'a store into the const section must be refused', ASM)
+    # asm.lines: indentation follows Metadata(add_indent)
+    try:
+        out = [bytes(b) for b in asm['lines']([asm['Label'](L('f')), asm['Metadata'](add_indent=1), asm['Halt'](),
+                                                asm['Metadata']('c'), asm['Metadata'](add_indent=-1), asm['Halt']()])]
+    except Exception as e:      # noqa
+        out = f'{type(e).__name__}: {e}'
+    chk.expect(out == [b'f:', b'    halt', b'    ; c', b'halt'], rule, 'asm.lines indentation', f'{out}', ASM)
+
+
 def run(repo, chk):
     chk.explanation = (
         'For each operator the chain token -> AST class -> compile-time fold -> run-time instruction class -> '
@@ -115,6 +216,7 @@ def run(repo, chk):
     fields = [n.target.id for n in ch.body if isinstance(n, ast.AnnAssign)]
     chk.expect(fields == ['left', 'right'], 'C09.M1', 'ConditionalHalt fields', f'{fields}', ASM)
 
+    rendering(repo, chk, 'C09.M1')
     # the branch lowering re-checks the logical inverse at the jump target: the table must be the exact involution
     from .c03 import EXPECTED_INVOLUTION
     inv = {k.replace('asm.', ''): v.replace('asm.', '') for k, v in gf.halt_inversion.items()}
